@@ -35,16 +35,16 @@ TEXT = {
          "Two-step expressions (all 16 operation pairs on exact families, either nesting side, third operand independent or re-used): the model is run on the implementation's own intermediate result, the final region is decided against the Boolean expression for all points of the checked cells, and the intermediate result is checked to be a valid operand."),
  "C12": ("other", "4 (C12)", "histories of the real code (repeated, reordered, after unrelated calls, 8-16 threads) against the pure model value; operand immutability; source scan",
          "See explanation in the evidence: the model is a function by construction; the check establishes that the implementation behaves as one under call histories and thread placements, and that the code has none of the constructs (global state, hash-order iteration, address order) the model cannot represent. Partial by nature: data races / allocator state are not modelled."),
- "C13": ("translation_validation", "4 (C13)", "Lean model + correspondence on fill_queue (pop order, boxes) and subdivide (full event list); exact planar-subdivision and coverage oracle on the implementation's events",
-         "Per run: queue pop order, boxes and the full event list compared bit for bit with the model; linked pairs, left-first, non-zero length, pairwise non-crossing / no T-touch / coincidence only across operands, and chain coverage of every input edge are decided exactly on the implementation's events (union/xor fully, intersection/difference on the processed prefix)."),
+ "C13": ("translation_validation", "4 (C13)", "theorem C13_fillQueue (all inputs); Lean model + correspondence on fill_queue (pop order, boxes) and subdivide (full event list); exact planar-subdivision and coverage oracle on the implementation's events",
+         "Theorem (every input, every operation): fill_queue creates exactly one mutually linked left/right pair per non-degenerate input edge, left event first in sweep order, non-zero length, exact boxes. Per run: queue pop order, boxes and the full event list of subdivide compared bit for bit with the model; pairwise non-crossing / no T-touch / coincidence only across operands and chain coverage of every input edge decided exactly on the implementation's events (union/xor fully, intersection/difference on the processed prefix). Completeness of the neighbour checks for every input is not proved."),
  "C14": ("translation_validation", "4 (C14)", "theorems: local soundness of every propagation branch and of the selection tables; Lean model + correspondence (flags bit-exact, compute_fields exhaustively); exact flag oracle on the implementation's events",
          "Theorems (finite, all branches): propagation from the predecessor incl. both vertical compensations, selection and transition incl. coincident twins. Per run: every recorded flag compared with the model; compute_fields compared exhaustively over its finite domain (12k combinations); in_out / other_in_out / in_result / transition / prev_in_result checked against point membership at exact side points of every clear sub-segment."),
- "C15": ("translation_validation", "4 (C15)", "Lean model of Ord::cmp and compare_segments over Rat + correspondence (random, lattice; exhaustive 4x4 lattice in thorough); order laws evaluated with the real comparators on co-occurring events",
-         "Ord::cmp and compare_segments are compared with the model on pairs (random float, lattice, shared endpoints; exhaustively on the 4x4 lattice in the thorough tier); never-Equal, antisymmetry and transitivity are evaluated with the real comparators on the events that co-occur in sweeps of valid operands."),
- "C16": ("translation_validation", "4 (C16)", "Lean model of intersection / possible_intersection / divide_segment + correspondence at function level (f32/f64, both profiles); classification against the model under exact arithmetic on integer inputs",
-         "The pairwise step is compared with the model (return code, post-state of both segments, queued events, edge types, bump count) on lattice, large-integer, float, collinear (incl. vertical) and near-corner pairs in both argument orders; on integer inputs the classification must equal the exact-arithmetic one and division points agree within 1e-9. N2 is a known finding by call site."),
- "C17": ("translation_validation", "4 (C17)", "Lean model of the splay tree (top-down splay, insert/remove/lookups/iterators, size field) + correspondence on operation histories incl. key addresses",
-         "Every operation of SplayTree and SplaySet is compared with the model on random and structured histories under three comparators: return values, len, iteration sequences in mixed direction, Debug shape, and the address of every key handed out (must stay constant while the key is stored). Exhaustive short histories in the thorough tier."),
+ "C15": ("proof", "4 (C15)", "Lean theorems over exact rational coordinates (= every finite float input): never Equal, lexicographic, angular, antisymmetric and transitive on the events of a valid input; compare_segments Equal iff identical and antisymmetric; model tied to Ord::cmp / compare_segments by correspondence",
+         "Proved for all events (the code only compares coordinates and takes the exact orientation sign, so theorems over the rationals cover every finite f32/f64 input): Ord::cmp never answers Equal, orders by x, then y, then right before left, then counter-clockwise; it is antisymmetric and transitive on the events of a valid input (the excluded configuration is exhibited as the source's known gap); compare_segments answers Equal exactly for the identical segment and is antisymmetric. The model's two comparison functions are compared with the real ones on random, lattice and shared-endpoint pairs (exhaustively on the 4x4 lattice in the thorough tier) and the laws are re-evaluated with the real comparators on co-occurring events. Not proved: agreement of compare_segments with the vertical order of non-crossing segments (decided per run through C13/C14 oracles)."),
+ "C16": ("translation_validation", "4 (C16)", "theorems: containment in both bounding boxes for EVERY rounding, exact-arithmetic classification of non-parallel segments, untouched segments; Lean model of intersection / possible_intersection / divide_segment / nextafter + function-level correspondence (f32/f64, both profiles); independent oracles (exact classification, containment, orientation sign, IEEE neighbours)",
+         "Theorems: for every rounding function every reported point lies in the bounding boxes of both segments, disjoint boxes report nothing, and segments that do not intersect or meet only at a common endpoint are left untouched with return code 0; under exact arithmetic for non-parallel segments None is reported exactly when the segments are disjoint, the point lies on both, independently of argument order. Per run: the pairwise step is compared with the model (return code, post-state of both segments, queued events, edge types, bump count) on lattice, large-integer, float, collinear (incl. vertical), near-corner and near-vertical pairs in both argument orders; classification on integer inputs must equal the exact one; orientation sign and nextafter are checked against independent references. N2 is a known finding by call site."),
+ "C17": ("proof", "4 (C17)", "Lean theorem history_refines: for every lawful comparator and every finite operation sequence the splay model equals a sorted association list; model tied to lib/src/splay by correspondence on histories incl. key addresses; reference-map oracle on the real answers",
+         "Proved (induction over arbitrary operation lists, any lawful comparator): insert, remove, get, find_key, contains, next, prev, min, max, clear, len, is_empty, extend and consuming iteration in any mix of directions return exactly what a sorted association list returns; len = number of keys; iteration strictly increasing; splay preserves the node sequence for ANY comparator. The model is compared with SplayTree and SplaySet on random, structured and (thorough) exhaustive short histories under three comparators incl. Debug shape and the address of every key handed out; the real answers are also judged against an independent reference map."),
  "C18": ("other", "4 (C18)", "child processes on 8 MiB main stack and 2 MiB thread: 3e6 keys in monotone / reverse / zig-zag / random order then drop, clear, partial and full consumption, queries; early-break sweep with > 1e5 segments; stack depth of key drops must not grow with size",
          "Runtime property: each scenario runs in its own process; survival and the stack depth at which keys are dropped (recorded by the keys' Drop) are observed; depth must be independent of the number of keys. The model part (frame machines) covers the logic; frame sizes and the real stack limit are runtime facts."),
 }
